@@ -229,26 +229,77 @@ Qed.
 (* what an Ok answer of the action check must establish for list- and class-typed arguments *)
 Definition chk_und (d : decl) (w : cv) : Prop :=
   match d with
-  | DList _ | DClass _ _ | DOpt _ => forall k fs, assoc k fs = Some d -> und_entry true true fs k w = []
+  | DList _ | DClass _ _ | DOpt _ => forall k fs, assoc k fs = Some d -> und_entry false false fs k w = []
   | _ => True
   end.
 
-Lemma walk_und chk :
-  (forall key d w, chk key d w = Ok -> chk_und d w) ->
-  forall v fs grp sub pre, Forall ev_ok (walk chk fs grp sub pre v) -> und true true fs v = [].
+(* ---- the lenient pre-pass, entry by entry ------------------------------------------------------------- *)
+Definition apply_entry (chk : list str -> decl -> cv -> res) (fs : args) (pre : list str) (k : str) (w : cv) : res :=
+  match assoc k fs with
+  | Some (DGroup fs') | Some (DData _ fs') => apply_walk chk fs' (pre ++ [k]) w
+  | Some d => chk (pre ++ [k]) d w
+  | None => empty_err (pre ++ [k]) w
+  end.
+
+Lemma apply_walk_cons0 chk fs pre k w t :
+  apply_walk chk fs pre (CDict ((k, w) :: t)) = bind (apply_entry chk fs pre k w) (apply_walk chk fs pre (CDict t)).
+Proof. reflexivity. Qed.
+
+Lemma apply_walk_entries chk fs pre l :
+  apply_walk chk fs pre (CDict l) = Ok -> forall k w, In (k, w) l -> apply_entry chk fs pre k w = Ok.
 Proof.
-  intros Hchk. induction v using cv_ind'; intros fs grp sub pre F; try reflexivity.
+  induction l as [|[k0 w0] t IH]; intros H k w HIn; [destruct HIn|].
+  rewrite apply_walk_cons0 in H. apply bind_ok in H. destruct H as [H1 H2].
+  destruct HIn as [E|HIn]; [inversion E; subst; exact H1 | eapply IH; eauto].
+Qed.
+
+(* a leafless mapping contains an empty mapping, which the pre-pass refuses below a key without action *)
+Lemma shallowest_some : forall l b, exists x, shallowest (Some b) l = Some x.
+Proof.
+  induction l as [|y t IH]; intros b; simpl; [eexists; reflexivity|].
+  destruct (Nat.ltb (length y) (length b)); apply IH.
+Qed.
+
+Lemma shallowest_none l : shallowest None l = None -> l = [].
+Proof.
+  destruct l as [|x t]; [reflexivity|]. simpl. intros H.
+  destruct (shallowest_some t x) as [y Hy]. rewrite Hy in H. discriminate.
+Qed.
+
+Lemma leafless_empties : forall v pre, leafless v = true -> empties pre v <> [].
+Proof.
+  induction v using cv_ind'; intros pre L; try discriminate.
+  destruct l as [|[k w] t]; [simpl; discriminate|].
+  inversion H; subst. simpl in L. apply andb_true_iff in L. destruct L as [L1 _].
+  simpl in H2. specialize (H2 (pre ++ [k]) L1).
+  simpl. intros E. apply app_eq_nil in E. destruct E as [E _]. contradiction.
+Qed.
+
+Lemma empty_err_ok pre v : empty_err pre v = Ok -> leafless v = false.
+Proof.
+  unfold empty_err. intros H. destruct (shallowest None (empties pre v)) eqn:E; [discriminate|].
+  apply shallowest_none in E. destruct (leafless v) eqn:L; [|reflexivity].
+  exfalso. exact (leafless_empties v pre L E).
+Qed.
+
+Lemma walk_und chk chkl :
+  (forall key d w, chk key d w = Ok -> chk_und d w) ->
+  forall v fs grp sub pre pre',
+    Forall ev_ok (walk chk fs grp sub pre v) -> apply_walk chkl fs pre' v = Ok -> und false false fs v = [].
+Proof.
+  intros Hchk. induction v using cv_ind'; intros fs grp sub pre pre' F A; try reflexivity.
   apply und_entries_nil. intros k w HIn.
   pose proof (walk_entries _ _ _ _ _ _ F k w HIn) as FE.
+  pose proof (apply_walk_entries _ _ _ _ A k w HIn) as AE.
   rewrite Forall_forall in H. pose proof (H (k, w) HIn) as IHw. simpl in IHw.
-  unfold und_entry. destruct (assoc k fs) as [d|] eqn:E.
+  unfold und_entry. unfold apply_entry in AE. destruct (assoc k fs) as [d|] eqn:E.
   - destruct d as [r|fs'|r fs'|r cls|fs'|fs'].
     + reflexivity.
     + destruct (is_dict w) eqn:D.
-      * rewrite (IHw fs' grp sub (pre ++ [k])); [reflexivity|]. eapply entry_group; eauto.
+      * rewrite (IHw fs' grp sub (pre ++ [k]) (pre' ++ [k])); [reflexivity| |exact AE]. eapply entry_group; eauto.
       * rewrite und_not_dict; auto.
     + destruct (is_dict w) eqn:D.
-      * rewrite (IHw fs' (match grp with None => Some (pre ++ [k]) | g => g end) sub (pre ++ [k])); [reflexivity|].
+      * rewrite (IHw fs' (match grp with None => Some (pre ++ [k]) | g => g end) sub (pre ++ [k]) (pre' ++ [k])); [reflexivity| |exact AE].
         eapply entry_data; eauto.
       * rewrite und_not_dict; auto.
     + pose proof (Hchk _ _ _ (entry_class _ _ _ _ _ _ _ _ _ E FE)) as C. simpl in C.
@@ -257,14 +308,14 @@ Proof.
       specialize (C k fs E). unfold und_entry in C. rewrite E in C. exact C.
     + pose proof (Hchk _ _ _ (entry_opt _ _ _ _ _ _ _ _ E FE)) as C. simpl in C.
       specialize (C k fs E). unfold und_entry in C. rewrite E in C. exact C.
-  - rewrite (entry_unknown _ _ _ _ _ _ _ E FE). reflexivity.
+  - exfalso. pose proof (entry_unknown _ _ _ _ _ _ _ E FE) as L. apply empty_err_ok in AE. rewrite L in AE. discriminate.
 Qed.
 
 Lemma items_und f fs' k (c : nat -> list seg) key :
-  (forall fs v, nested f false fs v = Ok -> und true true fs v = []) ->
+  (forall fs v, nested f false fs v = Ok -> und false false fs v = []) ->
   forall items i,
     check_items (fun i x => if is_dict x then pushr (c i) (nested f false fs' x) else Err (EBadValue [] key)) i items = Ok ->
-    und_items true true fs' k i items = [].
+    und_items false false fs' k i items = [].
 Proof.
   intros IH. induction items as [|x r IHr]; intros i H; [reflexivity|].
   simpl in H. apply bind_ok in H. destruct H as [H1 H2].
@@ -274,26 +325,21 @@ Proof.
 Qed.
 
 Lemma chk_action_und f :
-  (forall fs v, nested f false fs v = Ok -> und true true fs v = []) ->
+  (forall fs v, nested f false fs v = Ok -> und false false fs v = []) ->
   forall key d w, chk_action (nested f false) key d w = Ok -> chk_und d w.
 Proof.
   intros IH key d w H. destruct d as [r|fs'|r fs'|r cls|fs'|fs']; simpl; auto; intros k fs E; unfold und_entry; rewrite E.
-  - (* class *)
+  - (* class: an accepted class value has no key beside class_path / init_args / dict_kwargs *)
     destruct w as [| | |l|]; try reflexivity.
     simpl in H.
     destruct (assoc s_class_path l) as [[| |c| |]|] eqn:CP; try discriminate.
     unfold class_of. rewrite CP. cbv beta iota. unfold args in *.
-    destruct (filter (fun k0 => negb (spec_key k0)) (map fst l)) as [|x xs] eqn:FX.
-    + destruct (assoc c cls) as [ps|] eqn:CC; [|discriminate].
-      assert (forall b : bool, (if b then [] else map (fun x => [K k; K x]) (@nil str)) = @nil (list seg)) as Hb
-        by (intros []; reflexivity).
-      rewrite Hb. rewrite app_nil_l.
-      destruct (assoc s_init_args l) as [[| | |ia|]|] eqn:IA; try discriminate.
-      * apply pushr_ok in H. rewrite (und_init_some _ _ _ _ _ _ IA), (IH _ _ H). reflexivity.
-      * apply und_init_none. exact IA.
-    + destruct (assoc s_init_args l) eqn:IA; [discriminate|].
-      destruct (assoc s_dict_kwargs l) eqn:DK; [discriminate|].
-      rewrite app_nil_l. destruct (assoc c cls); [|reflexivity]. apply und_init_none. exact IA.
+    destruct (filter (fun k0 => negb (spec_key k0)) (map fst l)) as [|x xs] eqn:FX; [|discriminate].
+    destruct (assoc c cls) as [ps|] eqn:CC; [|discriminate].
+    simpl andb. cbv iota. simpl map. rewrite app_nil_l.
+    destruct (assoc s_init_args l) as [[| | |ia|]|] eqn:IA; try discriminate.
+    * apply pushr_ok in H. rewrite (und_init_some _ _ _ _ _ _ IA), (IH _ _ H). reflexivity.
+    * apply und_init_none. exact IA.
   - (* list *)
     destruct w as [| | | |items]; try reflexivity.
     simpl in H. exact (items_und f fs' k (fun i => map K key ++ [I i]) key IH items 0%nat H).
@@ -310,11 +356,16 @@ Proof.
   split; [apply first_failure_ok; exact H1 | exact H2].
 Qed.
 
-Lemma nested_und : forall f fs v, nested f false fs v = Ok -> und true true fs v = [].
+Lemma nested_ok_apply f fs v :
+  nested (S f) false fs v = Ok -> apply_walk (chk_action (nested f true)) fs [] v = Ok.
+Proof. simpl. intros H. apply bind_ok in H. tauto. Qed.
+
+Lemma nested_und : forall f fs v, nested f false fs v = Ok -> und false false fs v = [].
 Proof.
   induction f as [|f IH]; intros fs v H; [discriminate|].
+  pose proof (nested_ok_apply _ _ _ H) as A.
   apply nested_ok_parts in H. destruct H as [F _].
-  eapply walk_und; [|exact F]. apply chk_action_und. exact IH.
+  eapply walk_und; [|exact F|exact A]. apply chk_action_und. exact IH.
 Qed.
 
 (* ---- the top level: subcommand selection ------------------------------------------------------------ *)
@@ -446,17 +497,37 @@ Proof.
   apply first_failure_ok in H1. unfold top_walk in H1. rewrite Hs in H1. exact H1.
 Qed.
 
+Definition top_apply_entry (chk : list str -> decl -> cv -> res) (p : parser) (sb : subs) (k : str) (w : cv) : res :=
+  if str_eqb k (s_dest sb) then Ok
+  else match assoc k (s_map sb) with
+       | Some sa => apply_walk chk sa [k] w
+       | None => apply_walk chk (p_args p) [] (CDict [(k, w)])
+       end.
+
+Lemma top_apply_cons chk p sb k w t :
+  p_sub p = Some sb -> top_apply chk p ((k, w) :: t) = bind (top_apply_entry chk p sb k w) (top_apply chk p t).
+Proof. unfold top_apply. intros ->. reflexivity. Qed.
+
+Lemma top_apply_entries chk p sb l :
+  p_sub p = Some sb -> top_apply chk p l = Ok -> forall k w, In (k, w) l -> top_apply_entry chk p sb k w = Ok.
+Proof.
+  intros Hs. induction l as [|[k0 w0] t IH]; intros H k w HIn; [destruct HIn|].
+  rewrite (top_apply_cons _ _ _ _ _ _ Hs) in H. apply bind_ok in H. destruct H as [H1 H2].
+  destruct HIn as [E|HIn]; [inversion E; subst; exact H1 | eapply IH; eauto].
+Qed.
+
 Theorem accept_no_undeclared md fuel p cfg :
-  run md fuel p cfg = Ok -> und_top md true true true p cfg = [].
+  run md fuel p cfg = Ok -> und_top md false true false p cfg = [].
 Proof.
   intros H. destruct cfg as [| | |l|]; try reflexivity.
   unfold und_top. destruct (p_sub p) as [sb|] eqn:Hs.
-  - unfold run in H. apply bind_ok in H. destruct H as [_ H]. rewrite Hs in H.
+  - unfold run in H. apply bind_ok in H. destruct H as [A H]. rewrite Hs in H.
     destruct (select md sb l) as [chosen l'] eqn:S.
     destruct (s_req sb && _); [discriminate|].
     apply bind_ok in H. destruct H as [H1 _]. apply first_failure_ok in H1.
     apply flat_map_nil. intros [k w] HIn. simpl.
     destruct (str_eqb k (s_dest sb)) eqn:Ed; [reflexivity|].
+    pose proof (top_apply_entries _ _ _ _ Hs A k w HIn) as AE. unfold top_apply_entry in AE. rewrite Ed in AE.
     destruct (assoc k (s_map sb)) as [sa|] eqn:Em.
     + destruct (mem_str k (discarded md sb l)) eqn:Md; [reflexivity|].
       assert (In (k, w) l') as HIn'.
@@ -464,7 +535,7 @@ Proof.
         apply in_select; auto. apply str_eqb_false_ne; exact Ed. }
       pose proof (top_entries _ _ _ _ _ Hs H1 k w HIn') as FE.
       destruct (is_dict w) eqn:D.
-      * rewrite (walk_und (schk fuel) (schk_und fuel) w sa None (Some k) [k]); [reflexivity|].
+      * rewrite (walk_und (schk fuel) (chk_action (nested fuel true)) (schk_und fuel) w sa None (Some k) [k] [k]); [reflexivity| |exact AE].
         eapply top_entry_section; eauto.
       * rewrite und_not_dict; auto.
     + assert (In (k, w) l') as HIn'.
@@ -472,13 +543,14 @@ Proof.
         apply in_select; auto. apply str_eqb_false_ne; exact Ed.
         apply discarded_sub. apply assoc_none_mem. exact Em. }
       pose proof (top_entries _ _ _ _ _ Hs H1 k w HIn') as FE.
-      apply (walk_und (schk fuel) (schk_und fuel) (CDict [(k, w)]) (p_args p) None None []).
+      apply (walk_und (schk fuel) (chk_action (nested fuel true)) (schk_und fuel) (CDict [(k, w)]) (p_args p) None None [] []); [|exact AE].
       eapply top_entry_arg; eauto.
-  - apply run_ok_nosub in H; [|exact Hs]. destruct H as [F _].
-    exact (walk_und (schk fuel) (schk_und fuel) (CDict l) (p_args p) None None [] F).
+  - pose proof H as H0. unfold run in H0. apply bind_ok in H0. destruct H0 as [A _].
+    unfold top_apply in A. rewrite Hs in A.
+    apply run_ok_nosub in H; [|exact Hs]. destruct H as [F _].
+    exact (walk_und (schk fuel) (chk_action (nested fuel true)) (schk_und fuel) (CDict l) (p_args p) None None [] [] F A).
 Qed.
 
-(* ================================== required keys ====================================================== *)
 Section DeclInd.
   Variable P : decl -> Prop.
   Hypothesis Ha : forall r, P (DArg r).
@@ -709,9 +781,7 @@ Proof.
         -- apply pushr_ok in H. destruct (IH _ _ H) as [A B].
            rewrite (nm_init_some _ _ _ _ IA), A, B. reflexivity.
         -- apply pushr_ok in H. destruct (IH _ _ H) as [A _]. rewrite A. reflexivity.
-      * destruct (assoc s_init_args l) eqn:IA; [discriminate|].
-        destruct (assoc s_dict_kwargs l) eqn:DK; [discriminate|].
-        apply pushr_ok in H. exfalso. eapply nested_empty_class_path; eauto.
+      * discriminate.
   - (* list *)
     destruct w as [| | | |items]; try reflexivity.
     simpl in H. exact (items_nm f fs' k (fun i => map K key ++ [I i]) key IH items 0%nat H).
@@ -916,21 +986,18 @@ Qed.
 
 (* ---- the guarded forms used by the correspondence judge ------------------------------------------------ *)
 Lemma guard_zero_lengths md p cfg :
-  guard_class md p cfg = 0%N -> length (und_top md true true true p cfg) = length (undeclared md p cfg).
+  guard_class md p cfg = 0%N -> length (undeclared md p cfg) <= length (und_top md false true false p cfg).
 Proof.
   unfold guard_class, undeclared.
-  destruct (Nat.ltb _ _); [discriminate|].
-  destruct (Nat.ltb _ _); [discriminate|].
-  destruct (Nat.ltb _ _); [discriminate|].
-  destruct (Nat.eqb _ _) eqn:E; [|discriminate].
-  intros _. apply Nat.eqb_eq. exact E.
+  destruct (Nat.ltb _ _) eqn:E; [discriminate|].
+  intros _. apply Nat.ltb_ge in E. exact E.
 Qed.
 
 Theorem accept_no_undeclared_guarded md fuel p cfg :
   guard_class md p cfg = 0%N -> run md fuel p cfg = Ok -> undeclared md p cfg = [].
 Proof.
   intros G H. apply guard_zero_lengths in G. rewrite (accept_no_undeclared _ _ _ _ H) in G.
-  apply length_zero_iff_nil. symmetry. exact G.
+  apply length_zero_iff_nil. simpl in G. inversion G. reflexivity.
 Qed.
 
 Theorem accept_sound md fuel p cfg :
@@ -987,9 +1054,13 @@ Lemma example_reject_missing :
   exists ks, run MDefaults 24 ex_p ex_c_miss = Err (EMissing [] ks) /\ missing_required MDefaults ex_p ex_c_miss = map (map K) ks.
 Proof. eexists. vm_compute. split; reflexivity. Qed.
 
-(* finding foreign-key-empty-mapping *)
-Lemma empty_mapping_refuted :
-  run MDefaults 24 w1_p w1_c = Ok /\ undeclared MDefaults w1_p w1_c = [[K s_zz]] /\ guard_class MDefaults w1_p w1_c = 1%N.
+(* former finding foreign-key-empty-mapping (repaired in the library, a58b0fc): the lenient pre-pass refuses the key,
+   also one level down and below a group *)
+Definition w1_c2 : cv := CDict [(s_zz, CDict [([121;121]%N, CDict [([107]%N, CDict [])]); (s_w, CDict [])])].
+Lemma example_empty_mapping_rejected :
+  run MDefaults 24 w1_p w1_c = Err (EUnknown [] FKey [s_zz]) /\ spec_ok MDefaults w1_p w1_c (RejUnknown [s_zz]) = true /\
+  run MDefaults 24 w1_p w1_c2 = Err (EUnknown [] FKey [s_zz; s_w]) /\ spec_ok MDefaults w1_p w1_c2 (RejUnknown [s_zz; s_w]) = true /\
+  guard_class MDefaults w1_p w1_c = 0%N.
 Proof. vm_compute. repeat split. Qed.
 
 (* finding foreign-key-in-discarded-subcommand-section *)
@@ -997,28 +1068,18 @@ Lemma discarded_section_refuted :
   run MDefaults 24 w2_p w2_c = Ok /\ undeclared MDefaults w2_p w2_c = [[K s_test; K s_zz]] /\ guard_class MDefaults w2_p w2_c = 2%N.
 Proof. vm_compute. repeat split. Qed.
 
-(* finding foreign-key-beside-class-path-misnamed *)
-Lemma class_path_misnamed_refuted :
-  run MDefaults 24 w3_p w3_c = Err (EUnknown [K s_w] FKey [s_class_path]) /\
-  undeclared MDefaults w3_p w3_c = [[K s_w; K s_zz]] /\ spec_ok MDefaults w3_p w3_c (RejUnknown [s_class_path]) = false /\
-  guard_class MDefaults w3_p w3_c = 3%N.
+(* former finding foreign-key-beside-class-path-misnamed (repaired in the library, 56814dd): the class value is refused as
+   "Not a valid subclass", the message shows the mapping with the foreign key *)
+Lemma example_class_path_extra_rejected :
+  run MDefaults 24 w3_p w3_c = Err (EBadSpec [] [s_w] [s_zz]) /\
+  undeclared MDefaults w3_p w3_c = [[K s_w; K s_zz]] /\ spec_ok MDefaults w3_p w3_c (RejUnknown [s_zz]) = true /\
+  guard_class MDefaults w3_p w3_c = 0%N.
 Proof. vm_compute. repeat split. Qed.
-
-Lemma empty_mapping_refuted_ex :
-  exists md fuel p cfg, run md fuel p cfg = Ok /\ undeclared md p cfg <> [] /\ guard_class md p cfg = 1%N.
-Proof. exists MDefaults, 24%nat, w1_p, w1_c. destruct empty_mapping_refuted as [A [B C]]. rewrite B. repeat split; auto; discriminate. Qed.
 
 Lemma discarded_section_refuted_ex :
   exists md fuel p cfg, run md fuel p cfg = Ok /\ undeclared md p cfg <> [] /\ guard_class md p cfg = 2%N.
 Proof. exists MDefaults, 24%nat, w2_p, w2_c. destruct discarded_section_refuted as [A [B C]]. rewrite B. repeat split; auto; discriminate. Qed.
 
-Lemma class_path_misnamed_refuted_ex :
-  exists md fuel p cfg ctx fam key,
-    run md fuel p cfg = Err (EUnknown ctx fam key) /\ spec_ok md p cfg (RejUnknown key) = false /\ guard_class md p cfg = 3%N.
-Proof.
-  exists MDefaults, 24%nat, w3_p, w3_c, [K s_w], FKey, [s_class_path].
-  destruct class_path_misnamed_refuted as [A [B [C D]]]. auto.
-Qed.
 
 
 (* ---- an unknown-key error is only raised when the configuration has an undeclared key ---------------- *)
@@ -1123,7 +1184,7 @@ Lemma apply_walk_cons chk fs pre k w t :
   bind (match assoc k fs with
         | Some (DGroup fs') | Some (DData _ fs') => apply_walk chk fs' (pre ++ [k]) w
         | Some d => chk (pre ++ [k]) d w
-        | None => Ok
+        | None => empty_err (pre ++ [k]) w
         end) (apply_walk chk fs pre (CDict t)).
 Proof. reflexivity. Qed.
 
@@ -1136,7 +1197,7 @@ Proof.
   inversion H; subst. simpl in H2.
   rewrite und_cons. intros E. apply app_eq_nil in E. destruct E as [E1 E2].
   destruct U as [U|U]; [|exact (IHl H3 U E2)].
-  unfold und_entry in E1. destruct (assoc k fs) as [d|] eqn:A; [|destruct U].
+  unfold und_entry in E1. destruct (assoc k fs) as [d|] eqn:A; [|simpl in E1; discriminate].
   destruct d as [r|fs'|r fs'|r cls|fs'|fs'].
   - exact (Hchk _ _ _ k fs U A).
   - apply map_eq_nil in E1. exact (H2 _ _ U E1).
@@ -1270,9 +1331,7 @@ Proof.
   apply is_unk_bind in U. destruct U as [U|U].
   - exists (k, w). split; [left; reflexivity|]. unfold ut_entry. cbn [fst snd].
     destruct (str_eqb k (s_dest sb)) eqn:Ed.
-    + exfalso. apply str_eqb_spec in Ed. subst k.
-      rewrite (mem_false_assoc _ _ (wf_dest_sub _ _ W Hs)) in U.
-      rewrite apply_walk_cons in U. rewrite (wf_dest_args _ _ W Hs) in U. exact U.
+    + exfalso. exact U.
     + destruct (assoc k (s_map sb)) as [sa|].
       * apply map_ne. eapply apply_walk_unk; eauto.
       * eapply apply_walk_unk; eauto.
@@ -1391,3 +1450,18 @@ Theorem accept_required_after_rejected_links md fuel p ls cfg :
   (forall l, In l ls -> l_ok l = false) ->
   wf_parser p = true -> run md fuel (with_links p ls) cfg = Ok -> missing_required md p cfg = [].
 Proof. intros R W H. rewrite (with_links_rejected p ls R) in H. exact (accept_required md fuel p cfg W H). Qed.
+
+(* ---- the list-append spelling: only more checks, so it accepts no more than the plain spelling ------------------- *)
+Lemma run_append_ok md fuel p cfg apps : run_append md fuel p cfg apps = Ok -> run md fuel p cfg = Ok.
+Proof.
+  unfold run_append. destruct cfg as [| | |l|]; auto.
+  intros H. apply bind_ok in H. destruct H as [_ H]. apply bind_ok in H. destruct H as [_ H]. exact H.
+Qed.
+
+Lemma run_append_nil md fuel p cfg : run_append md fuel p cfg [] = run md fuel p cfg.
+Proof.
+  unfold run_append. destruct cfg as [| | |l|]; try reflexivity.
+  simpl append_checks. simpl fold_left. unfold run at 2. destruct (top_apply _ p l) eqn:E; simpl.
+  - unfold run. rewrite E. reflexivity.
+  - reflexivity.
+Qed.
